@@ -5,6 +5,14 @@ HERE = os.path.dirname(os.path.dirname(os.path.abspath(__file__)))
 ALL = [f"C{i:02d}" for i in range(1, 19)]
 # property -> (technique, level text, level note, design_ref)
 CHECKS = {
+ "C06": ("runtime monitor through the documented extension point: tag distributions whose outputs encode exactly which key and which "
+         "x/condition slice each element was computed from; decoded against NumPy broadcasting; real conditional flows compared with a "
+         "Python loop of unbatched public calls",
+         "Exploration: exhaustive over a lattice of event/condition/batch/sample shapes (8 batch shapes squared x 3 events x 4 condition "
+         "shapes for log_prob, 4 sample shapes x batch shapes for sample and sample_and_log_prob) for tag distributions, plus 4 real "
+         "conditional distributions.",
+         "Trusts exactness of the float64 tag encoding (21+21 key bits, 10-bit slice id) and NumPy's broadcasting as the definition.",
+         "DESIGN.md 4/C06"),
  "C05": ("runtime reference-model monitor: closed-form textbook log-densities (NumPy float64, scipy.stats second opinion) vs the public "
          "log_prob at interior/edge/outside/far-tail points, accessors vs constructor arguments, seeded KS goodness-of-fit of the samplers "
          "with the DKW bound, mixtures vs weighted logsumexp and weight rescaling",
